@@ -16,6 +16,7 @@ OLI = OptT(LI)
 ROWS = ListT(LV)           # a table as list of rows (ndarray of objects)
 AII = DictT(INT, INT)
 I = z3.IntSort()
+B = z3.BoolSort()
 
 
 def R_(x):
